@@ -319,7 +319,7 @@ class Scenario:
         self.nq_left = [n.notification_xml for n in ses._notification_q.d]
         from ncclient.operations.rpc import RPCReplyListener as _L
         self.reply_listeners = [l for l in ses._listeners if isinstance(l, _installed['listener'])]
-        self.pending_end = [k for l in self.reply_listeners for k in dict.keys(l._id2rpc)]
+        self.pending_end = [k for l in self.reply_listeners for k in list(l._id2rpc.keys())]
         # let every parked thread run to its end outside the scheduler
         self._drain(S, ses, sock)
         self.S, self.outcomes, self.rpcs = S, outcomes, rpcs
